@@ -56,6 +56,9 @@ def run_engine_a_property(pid, tier, seed):
     if pid == "C01":
         # lemma: the run table every with-holes function trusts, with SYMBOLIC discriminants
         L1.engine_c(rep, 4 if tier == "quick" else 8, ht)
+    if pid in ("C03", "C07"):
+        # the table-index arithmetic with SYMBOLIC run layouts (all 12 reprs)
+        L1.engine_c2(rep, ["as_str_fn"] if pid == "C03" else ["range_fn"], 3 if tier == "quick" else 5, ht)
     return D.finish(rep, RULES[pid], COMMON_ASSUMPTIONS, COMMON_OUTSIDE)
 
 
@@ -107,6 +110,8 @@ def run_C18(tier, seed):
     mods = P.plan_C18_pairs(tier, seed) + P.plan_C18_oracle(tier, seed)
     _corpus(rep, mods)
     D.engine_a(rep, mods, ht, compile_violation=False, crate_tag="d")
+    # repr independence of the index casts (unsigned companion type), symbolic layouts, 12 reprs
+    L1.engine_c2(rep, ["as_str_fn", "range_fn"], 3 if tier == "quick" else 5, ht)
     return D.finish(rep, "one obligation = (pair of declarations with the same discriminant->name map but different declaration order / repr, differential harness) or (family member, oracle harness against the map's DISC/NAMES)",
                     COMMON_ASSUMPTIONS, COMMON_OUTSIDE + ["permutations other than sorted/reversed/seeded shuffle"])
 
